@@ -9,7 +9,8 @@
    hypotheses are satisfiable ([aead_hyps_satisfiable]). *)
 From Coq Require Import List NArith Arith Bool Lia.
 From AHK Require Import Lib.Res Lib.ByteStr Model.Frame
-  Proofs.FrameBase Proofs.FrameFeed Proofs.FrameSend Proofs.FrameSound Proofs.FrameSess Proofs.FrameHist.
+  Proofs.FrameBase Proofs.FrameFeed Proofs.FrameSend Proofs.FrameSound Proofs.FrameSess Proofs.FrameHist
+  Model.ChaChaPoly Proofs.ChaChaPoly Proofs.FrameReal.
 Import ListNotations.
 
 Lemma F1024 : 0 < CHUNK. Proof. unfold CHUNK; lia. Qed.
@@ -325,3 +326,122 @@ Print Assumptions session_raise_sticks.
 Print Assumptions session_exhausted_forever.
 Print Assumptions nonce_layout.
 Print Assumptions aead_hyps_satisfiable.
+
+(* ------------------------------------------------------------------ the REAL cipher *)
+(* Model/ChaChaPoly.v is a bit-exact RFC 8439 ChaCha20-Poly1305 (tied to
+   aiohomekit/crypto/chacha20poly1305.py by harness/aeadtie.py, which runs inside this check).
+   It satisfies the one hypothesis the theorems above make about the cipher, so every one of
+   them also holds, unconditionally, for the bytes that are really on the wire. *)
+Theorem real_cipher_roundtrip : forall k n a p, cp_open k n a (cp_seal k n a p) = Some p.
+Proof. exact cp_open_seal. Qed.
+
+Theorem real_cipher_open_is_seal : forall k n a box p, cp_open k n a box = Some p -> box = cp_seal k n a p.
+Proof. exact cp_open_sound. Qed.
+
+Theorem real_cipher_expansion : forall k n a p, length (cp_seal k n a p) = length p + 16.
+Proof. exact cp_seal_length. Qed.
+
+Theorem real_cipher_short_rejected : forall k n a box, length box < 16 -> cp_open k n a box = None.
+Proof. exact cp_open_short. Qed.
+
+Theorem real_cipher_is_an_aead : aead_ok cp_aead 16.
+Proof. exact cp_aead_ok. Qed.
+
+(* what a written frame is, byte for byte: LE16 prefix, payload XOR ChaCha20 keystream
+   (block counter from 1), Poly1305 tag with the prefix as AAD *)
+Theorem real_frame_is : forall key f,
+    sf_aad f = sf_prefix f ->
+    render cp_aead key f =
+    sf_prefix f ++
+    chacha_xor key 1 (sf_nonce f) (sf_chunk f) ++
+    cp_tag key (sf_nonce f) (sf_prefix f) (chacha_xor key 1 (sf_nonce f) (sf_chunk f)).
+Proof. exact real_frame_bytes. Qed.
+
+(* every item handed to the transport is between 2+1+16 and 2+1024+16 bytes long *)
+Theorem real_frames_19_to_1042_bytes : forall key ctr payload fb,
+    In fb (fst (ip_send_frames cp_aead key ctr payload)) -> 19 <= length fb <= 1042.
+Proof. exact real_send_frame_lengths. Qed.
+
+Theorem real_request_accepted : forall key ctr payload,
+    let r := ip_send_frames cp_aead key ctr payload in
+    ip_acc_recv cp_aead key (S (length (concat (fst r)))) ctr (concat (fst r))
+    = Some (payload, snd r)
+    /\ snd r = (ctr + N.of_nat ((length payload + 1023) / 1024))%N.
+Proof. exact real_send_accepted. Qed.
+
+Theorem real_stream_decoded : forall key ps ctr segs,
+    Forall (fun p => (N.of_nat (length p) < 65536)%N) ps ->
+    (ctr + N.of_nat (length ps) <= ctr_limit)%N ->
+    concat segs = seal_stream cp_aead key ctr ps ->
+    ip_feed_all (cp_open key) (Live [] ctr) segs
+    = (Live [] (ctr + N.of_nat (length ps))%N, ps).
+Proof. exact real_feed_correct. Qed.
+
+Theorem real_session_accepted : forall key opn ops s,
+    forallb accepted_ev (snd (ip_sess_run opn s ops)) = true ->
+    let stream := concat (map (render cp_aead key) (concat (wrote (snd (ip_sess_run opn s ops))))) in
+    ip_acc_recv cp_aead key (S (length stream)) (s_tx s) stream
+    = Some (concat (sent ops), s_tx (fst (ip_sess_run opn s ops))).
+Proof. exact real_session_requests_accepted. Qed.
+
+Theorem real_session_decoded : forall key ops ctr tx ps,
+    forallb no_cancel ops = true ->
+    Forall (fun p => (N.of_nat (length p) < 65536)%N) ps ->
+    (ctr + N.of_nat (length ps) <= ctr_limit)%N ->
+    concat (recvs ops) = seal_stream cp_aead key ctr ps ->
+    delivered (snd (ip_sess_run (cp_open key) (mkSess (Live [] ctr) tx) ops)) = ps /\
+    s_rx (fst (ip_sess_run (cp_open key) (mkSess (Live [] ctr) tx) ops))
+    = Live [] (ctr + N.of_nat (length ps))%N.
+Proof. exact real_session_messages_decoded. Qed.
+
+(* inbound soundness in bytes, for ARBITRARY input: whatever is delivered, the consumed
+   bytes are complete frames each of which IS the RFC 8439 seal of the delivered plaintext
+   under the a2c key, the nonce of its position and its own prefix as AAD, and the prefix
+   is that plaintext's length *)
+Theorem real_delivered_only_seals : forall key ctr segs s' o,
+    ip_feed_all (cp_open key) (Live [] ctr) segs = (s', o) ->
+    exists frs rem,
+      concat segs = flat frs ++ rem /\ real_frames key ctr frs o /\
+      (s' = Live rem (ctr + N.of_nat (length o))%N \/ s' = Dead).
+Proof. exact real_delivered_are_seals. Qed.
+
+(* a complete frame that is not the seal of anything under the expected nonce (a flipped
+   bit anywhere, a replayed or reordered frame whose nonce differs) kills the session and
+   is not delivered, under any read schedule *)
+Theorem real_forged_frame_dead : forall key ps ctr hdr ct d segs,
+    Forall (fun p => (N.of_nat (length p) < 65536)%N) ps ->
+    (ctr + N.of_nat (length ps) <= ctr_limit)%N ->
+    length hdr = 2 -> length ct = N.to_nat (le_dec hdr) + 16 ->
+    (forall p, ct <> cp_seal key (nonce_of (ctr + N.of_nat (length ps))%N) hdr p) ->
+    concat segs = seal_stream cp_aead key ctr ps ++ hdr ++ ct ++ d ->
+    ip_feed_all (cp_open key) (Live [] ctr) segs = (Dead, ps).
+Proof. exact real_forged_frame_kills. Qed.
+
+(* non-vacuity with real bytes: a 3-byte request under the all-0x01 key at counter 5 is one
+   21-byte frame; the same frame read back in two pieces is decoded; with its last tag byte
+   changed it kills the session *)
+Example c05_real_nonvacuous :
+  let key := repeat 1%N 32 in
+  let r := ip_send_frames cp_aead key 5%N [72; 65; 80]%N in
+  map (@length N) (fst r) = [21] /\ snd r = 6%N /\
+  firstn 2 (concat (fst r)) = [3; 0]%N /\
+  ip_feed_all (cp_open key) (Live [] 5%N) [firstn 7 (concat (fst r)); skipn 7 (concat (fst r))]
+    = (Live [] 6%N, [[72; 65; 80]%N]) /\
+  ip_feed_all (cp_open key) (Live [] 5%N) [firstn 20 (concat (fst r)) ++ [N.lxor 1 (nth 20 (concat (fst r)) 0%N)]]
+    = (Dead, []) /\
+  ip_feed_all (cp_open key) (Live [] 6%N) [concat (fst r)] = (Dead, []).
+Proof. vm_compute. repeat split; reflexivity. Qed.
+
+Print Assumptions real_cipher_roundtrip.
+Print Assumptions real_cipher_open_is_seal.
+Print Assumptions real_cipher_expansion.
+Print Assumptions real_cipher_short_rejected.
+Print Assumptions real_cipher_is_an_aead.
+Print Assumptions real_frame_is.
+Print Assumptions real_frames_19_to_1042_bytes.
+Print Assumptions real_request_accepted.
+Print Assumptions real_stream_decoded.
+Print Assumptions real_session_accepted.
+Print Assumptions real_session_decoded.
+Print Assumptions real_delivered_only_seals.
+Print Assumptions real_forged_frame_dead.
